@@ -46,6 +46,7 @@ def _sq_units():
                 defs.append("SQ_MAIN")
                 first = False
             units.append(dict(src="seq.cpp", defs=defs))
+    units.append(dict(src="seq.cpp", defs=["SQ_FAMILY=0", "SQ_T=FT", "SQ_THROWING"]))
     return units
 
 
@@ -233,14 +234,18 @@ PROPS["C11"] = dict(
           "placed in seeded dirty memory (default-initialised `C x;` and value-initialised `C()` placement), with a model vector of pairs. Actors: the container's owner (constructors called with the container's own size, "
           "resize in three forms), an element-proxy actor writing through operator[], at, front, back, iterator, reverse iterator and operator-> in every value form, and a storage actor writing the two underlying storages directly. "
           "After every step both storages must have size() elements and element i must read as (first[i], second[i]) through every access path, const and non-const. "
+          "One further configuration family (xoptional_vector/array over a lifetime-tracked element type whose construction from a value, copy construction and copy assignment can throw) "
+          "attaches 'throw at the k-th element construction of this call' to constructor and resize steps: after the injected throw both storages must still be as long as size() "
+          "(what the storages then hold becomes the model), every stored element must be a live object, and nothing may leak. "
           "Non-trivial: at least two state-changing steps. Distinct: distinct run digests."),
     probes=["array_default_initialised_over_dirty_memory", "array_value_initialised", "resize_to_zero", "grow_from_empty", "shrink", "write_through_reverse_iterator",
-            "storage_write_observed_through_proxy", "compared_equal", "compared_unequal", "at_out_of_range"],
+            "storage_write_observed_through_proxy", "compared_equal", "compared_unequal", "at_out_of_range", "resize_threw", "constructor_threw"],
     components=dict(real=["include/xtl/xoptional_sequence.hpp", "include/xtl/xcomplex_sequence.hpp", "include/xtl/xdynamic_bitset.hpp (flag storage)", "include/xtl/xoptional.hpp / xcomplex.hpp (element proxies)"],
-                    stub=["model vector of pairs", "seeded dirty memory under every container object (the only way a defaulted constructor that forgets a storage becomes deterministic)"]),
+                    stub=["model vector of pairs", "seeded dirty memory under every container object (the only way a defaulted constructor that forgets a storage becomes deterministic)", "lifetime-tracked element type with injected constructor/assignment throws (one configuration family)"]),
     assumptions=["moved-from containers are unspecified and are re-created inside the same step",
                  "proxy-to-proxy assignment and assignment of xcomplex<T,T> to an xcomplex<T&,T&> proxy do not compile and are not generated (compile-time facts outside this technique)",
-                 "allocation failure is not injected: the property does not speak about exceptions and resizing two independent vectors cannot be atomic"],
+                 "allocation failure is not injected: the property does not speak about exceptions and resizing two independent vectors cannot be atomic",
+                 "element-constructor throws are injected into constructors and resize only, and only the property's own words (storages as long as size(), element i is the pair of slot i) are required afterwards; default construction of an element never throws because xtl::missing<T>() is noexcept"],
 )
 
 PROPS["C12"] = dict(
